@@ -402,7 +402,7 @@ class BGP(protocol.Protocol):
         self.msg_recv_stat['Notifications'] += 1
         error_str = bgp_cons.NOTIFICATION_ERROR_CODES_DICT.get(msg[0])
         if error_str:
-            sub_error_str = bgp_cons.NOTIFICATION_SUB_ERROR_CODES_DICT.get(msg[0]).get(msg[1])
+            sub_error_str = bgp_cons.NOTIFICATION_SUB_ERROR_CODES_DICT.get(msg[0], {}).get(msg[1])
         else:
             sub_error_str = None
         LOG.info(
